@@ -103,7 +103,8 @@ def r1_one_factory(a, tier):
                 continue
             if isinstance(n.exc, ast.Attribute) or (isinstance(n.exc, ast.Name) and (
                     a.resolver._is_local_var(f, n.exc.id) or n.exc.id in f.params
-                    or any(isinstance(h, ast.ExceptHandler) and h.name == n.exc.id for h in ast.walk(f.node)))):
+                    or any(isinstance(h, ast.ExceptHandler) and h.name == n.exc.id for h in ast.walk(f.node))
+                    or any(isinstance(m_, ast.MatchAs) and m_.name == n.exc.id for m_ in ast.walk(f.node)))):
                 continue  # re-raise of a caught / stored exception object, not an originating raise
             tok = ex.raise_token(f, n.exc, None, {})
             cls = tok.bound
